@@ -2,10 +2,10 @@
 (* Trace validation for C08: a trace recorded from a real Builder/Compiler     *)
 (* (harness/builder.cpp) is accepted iff it is a behaviour of the contract      *)
 (* Builder.tla.  Several executions are concatenated; each starts with Reset.  *)
-EXTENDS Builder, TraceLib
+EXTENDS CompilerPools, TraceLib
 
 VARIABLE l
-tvars == <<seq, cur, callOf, rej, done, l>>
+tvars == <<seq, cur, callOf, rej, done, cfunc, lpool, gpool, l>>
 
 T == TraceLog
 Ev == T[l]
@@ -13,6 +13,7 @@ IsEv(e) == l <= Len(T) /\ Ev.e = e /\ l' = l + 1
 
 TInit == /\ l = 1 /\ InitProgress
          /\ seq = <<>> /\ cur = Null /\ callOf = <<>> /\ rej = 0 /\ done = 1
+         /\ PInit
 
 (* a fresh emitter: the list is the initial .text section node, the cursor is on it *)
 TReset == /\ IsEv("Reset")
@@ -21,33 +22,45 @@ TReset == /\ IsEv("Reset")
           /\ seq' = <<Ev.n0>> /\ cur' = Ev.n0
           /\ callOf' = [x \in {Ev.n0} |-> Ev.payload]
           /\ rej' = 0 /\ done' = 0
+          /\ cfunc' = NoFunc /\ lpool' = Closed /\ gpool' = Closed
           /\ Agrees(Ev.p, seq', cur')
 
 TEmitOk == /\ IsEv("Emit") /\ Ev.r = "Ok"
-           /\ Emit(Ev.call, Ev.ns, Ev.ps, Ev.p)
+           /\ Emit(Ev.call, Ev.ns, Ev.ps, Ev.p) /\ UNCHANGED pvars
 
 TEmitRejected == /\ IsEv("Emit") /\ Ev.r # "Ok"
                  /\ Len(Ev.ns) = 0
-                 /\ Rejected(Ev.call, Ev.p)
+                 /\ Rejected(Ev.call, Ev.p) /\ UNCHANGED pvars
 
 TSectionOk == /\ IsEv("Section") /\ Ev.r = "Ok"
-              /\ SectionSwitch(Ev.s, Ev.n, Ev.payload, Ev.p)
+              /\ SectionSwitch(Ev.s, Ev.n, Ev.payload, Ev.p) /\ UNCHANGED pvars
 
 TSectionRejected == /\ IsEv("Section") /\ Ev.r # "Ok"
-                    /\ Rejected(SectionCall(Ev.s), Ev.p)
+                    /\ Rejected(SectionCall(Ev.s), Ev.p) /\ UNCHANGED pvars
 
-TSetCursor   == IsEv("SetCursor")   /\ SetCursor(Ev.n, Ev.p)
-TAddNode     == IsEv("AddNode")     /\ AddNode(Ev.n, Ev.payload, Ev.p)
-TAddAfter    == IsEv("AddAfter")    /\ AddAfter(Ev.n, Ev.ref, Ev.payload, Ev.p)
-TAddBefore   == IsEv("AddBefore")   /\ AddBefore(Ev.n, Ev.ref, Ev.payload, Ev.p)
-TRemoveNode  == IsEv("RemoveNode")  /\ RemoveNode(Ev.n, Ev.p)
-TRemoveNodes == IsEv("RemoveNodes") /\ RemoveNodes(Ev.f, Ev.l, Ev.p)
+TSetCursor   == IsEv("SetCursor")   /\ SetCursor(Ev.n, Ev.p) /\ UNCHANGED pvars
+TAddNode     == IsEv("AddNode")     /\ AddNode(Ev.n, Ev.payload, Ev.p) /\ UNCHANGED pvars
+TAddAfter    == IsEv("AddAfter")    /\ AddAfter(Ev.n, Ev.ref, Ev.payload, Ev.p) /\ UNCHANGED pvars
+TAddBefore   == IsEv("AddBefore")   /\ AddBefore(Ev.n, Ev.ref, Ev.payload, Ev.p) /\ UNCHANGED pvars
+TRemoveNode  == IsEv("RemoveNode")  /\ RemoveNode(Ev.n, Ev.p) /\ UNCHANGED pvars
+TRemoveNodes == IsEv("RemoveNodes") /\ RemoveNodes(Ev.f, Ev.l, Ev.p) /\ UNCHANGED pvars
 
-TSerialize == IsEv("Serialize") /\ Serialized(Ev.calls, Ev.perr)
-TFinalize  == IsEv("Finalize")  /\ Finalize(Ev.order, Ev.dB, Ev.dD, Ev.finOk, Ev.perr, Ev.errD)
+(* Compiler front end: constants, functions *)
+TNewConst == /\ IsEv("NewConst") /\ Ev.r = "Ok"
+             /\ NewConst(Ev.scope, Ev.data, Ev.label, Ev.off, Ev.hasLabelBase, Ev.p)
+TAddFunc  == IsEv("AddFunc") /\ Ev.r = "Ok" /\ AddFunc(Ev.ns, Ev.ps, Ev.p)
+TEndFunc  == IsEv("EndFunc") /\ Ev.r = "Ok" /\ EndFunc(Ev.n, Ev.payload, Ev.p)
+
+TSerialize == IsEv("Serialize") /\ Serialized(Ev.calls, Ev.perr) /\ UNCHANGED pvars
+(* finalize(): byte identity with the direct run + placement of the constant pools in the final list *)
+TFinalize  == /\ IsEv("Finalize")
+              /\ FinalizeX(Ev.order, Ev.dB, Ev.dD, Ev.finOk, Ev.perr, Ev.errD, IF gpool.open THEN 1 ELSE 0)
+              /\ FinalPlacement(Ev.lastIsPool, Ev.lastLabel, Ev.finalPools)
+              /\ UNCHANGED pvars
 
 TNext == \/ TReset \/ TEmitOk \/ TEmitRejected \/ TSectionOk \/ TSectionRejected
          \/ TSetCursor \/ TAddNode \/ TAddAfter \/ TAddBefore \/ TRemoveNode \/ TRemoveNodes
+         \/ TNewConst \/ TAddFunc \/ TEndFunc
          \/ TSerialize \/ TFinalize
 TSpec == TInit /\ [][TNext]_tvars
 
